@@ -9,6 +9,17 @@ Tie (checked on every run, besides the translator `translator/gen_smat.py`):
   nblast  navis.nblast / nblast_allbyall, every mode, normalised/raw, alpha, limit_dist, precision, tables
           == Lean `nblast` / `nblastAllByAll`, compared in Rat inside the driver (2^-40 relative to the summed terms)
   ext     smat=None / 'v1' / callable: the model supplies the matches, numpy evaluates the callable (a test)
+  hist    (harness/c06x.py) histories on the SAME Dotprops objects: NBLAST calls interleaved with in-place / out-of-place
+          arithmetic, `points = ...`, downsample, subset_neuron, recalculate_tangents, copy, pickle, exact unit conversion,
+          reads that cache the kd-tree; every call == Lean definition on the objects' CURRENT points / tangents / alpha; the
+          Lean cache model (Model/DpCache.lean with the invalidation flags of Gen/DpTree.lean) predicts which kd-tree
+          queries are answered by a stale tree (only the two known downsample / subset findings may be)
+  smart   (harness/c06x.py) nblast_smart: cell == full-definition score where navis' mask is True, == definition on the
+          factor-10 down-sampled clouds elsewhere; criterion='score': mask == (pre >= t)
+  options of the nblast stream: ids as str / mixed / numpy ints, single Dotprops instead of NeuronList, `smat` as a
+          Lookup2d object, per-neuron units (never enter the score), approx_nn on eps-unambiguous clouds, forced
+          distance-cap cases (limit 'auto' / number / None x alpha x normalisation with targets beyond / just inside the cap)
+  dupids  duplicate ids inside one list are refused
 Oracle clauses on the real code: Lean checker `binOK` on navis' bins; score == definition; self-score == 1;
 normalised <= 1 for the default tables; mean/min/max/both identities; all-by-all == query-vs-self; labels/ids in
 input order; documented no-hit semantics of `limit_dist`.
@@ -35,6 +46,13 @@ INF = float('inf')
 TOL64 = Fraction(1, 2 ** 40)
 SIG_A = 'nblast/use_alpha=True/smat=auto/normalised>1/matched-dot-bin-above-self-bin'
 SIG_B = 'nblast/use_alpha=True/smat=auto/normalised>1/low-alpha-self-cell-not-maximal'
+SIG_UNITS = 'nblast/smat=auto/units=None/check_microns-TypeError'
+
+
+def units_none_error(e, smat, neurons):
+    """the known preflight failure: `check_microns` does `list(n._unit_str)` on a unit-less neuron (smat='auto' only)"""
+    return (isinstance(e, TypeError) and 'NoneType' in str(e) and isinstance(smat, str) and smat == 'auto'
+            and any(getattr(n, '_unit_str', 1) is None for n in neurons))
 
 
 # ---------------------------------------------------------------------------------------------
@@ -98,11 +116,23 @@ def neurons_tok(ns):
     return '&'.join(f"{n['id']}@{cloud_tok(n)}" for n in ns)
 
 
-def mk_dp(c, dtype='float64'):
+UNITS = ['1 micron', None, '8 nanometer', 'nm', '1 um', 'micrometer']
+
+
+def id_label(i, idkind):
+    """the id a neuron carries on the navis side for model id `i`"""
+    if idkind == 'str' or (idkind == 'mixed' and i % 2 == 0):
+        return f'n{i}'
+    if idkind == 'npint':
+        return np.int64(i) if abs(i) < 2 ** 62 else i
+    return i
+
+
+def mk_dp(c, dtype='float64', idkind=None, units='1 micron'):
     d = navis.Dotprops(np.array(c['pts'], dtype=dtype).reshape(-1, 3), k=None,
                        vect=np.array(c['vect'], dtype=dtype).reshape(-1, 3),
-                       alpha=np.array(c['alpha'], dtype=dtype), units='1 micron')
-    d.id = c['id']
+                       alpha=np.array(c['alpha'], dtype=dtype), units=units)
+    d.id = id_label(c['id'], idkind)
     return d
 
 
@@ -232,6 +262,25 @@ def tie_free(neurons, fix=True):
                         for k in ('pts', 'vect', 'alpha'):
                             del A[k][i]
                     changed = True
+    return True
+
+
+def eps_free(neurons, eps=0.1):
+    """approx_nn (`eps=0.1`) may return any target point within (1 + eps) x the true nearest distance: the
+    definition is only determined when all such points give the same outcome."""
+    f2 = (1 + eps) ** 2 * (1 + 1e-9)
+    for A in neurons:
+        for B in neurons:
+            P = np.array(A['pts']); Q = np.array(B['pts'])
+            d2 = ((P[:, None, :] - Q[None, :, :]) ** 2).sum(axis=2)
+            VA = np.array(A['vect']); VB = np.array(B['vect']); aB = np.array(B['alpha'])
+            for i in range(len(P)):
+                m = d2[i].min()
+                js = np.nonzero(d2[i] <= m * f2)[0]
+                if len(js) > 1:
+                    outs = {(float(d2[i][j]), abs(float((VA[i] * VB[j]).sum())), float(aB[j])) for j in js}
+                    if len(outs) > 1:
+                        return False
     return True
 
 
@@ -513,9 +562,17 @@ def case_match(ctx, case):
     dq, dt = mk_dp(q, dtype), mk_dp(t, dtype)
     dists, dots, alpha = dq.dist_dots(dt, alpha=True, distance_upper_bound=bound)
     d2, dots2 = dq.dist_dots(dt, alpha=False, distance_upper_bound=bound)
-    ctx.oracle(np.array_equal(dists, d2) and np.array_equal(dots, dots2), 'dist_dots: alpha=True and alpha=False disagree on dist/dot', case)
     model = ctx.ask(f"c06.match {bound_tok(bound)}|{cloud_tok(q)}|{cloud_tok(t)}")
     ms = [m.split(':') for m in model.split(';')]
+    # the path NBLAST takes without alpha (`alpha=False`) against the definition's match: a point without a neighbour
+    # inside the cap has distance = cap and dot product 0
+    if len(ms) == len(d2):
+        badp = [(i, float(d2[i]), float(dots2[i]), m[2], m[4]) for i, m in enumerate(ms)
+                if Fraction(float(dots2[i])) != Fraction(m[2]) or
+                float(d2[i]) != float(np.sqrt(np.dtype(dtype).type(float(Fraction(m[1])))) if m[4] == '1' else np.dtype(dtype).type(float(bound)))]
+        ctx.oracle(not badp, f'dist_dots(alpha=False, distance_upper_bound={bound}): (point, dist, dot) = {badp[:2]} differs from the definition '
+                             f'(nearest target point; without a neighbour inside the cap: dist = cap, dot = 0)', case)
+    ctx.oracle(np.array_equal(dists, d2) and np.array_equal(dots, dots2), 'dist_dots: alpha=True and alpha=False disagree on dist/dot', case)
     ok = len(ms) == len(dists)
     bad = None
     nohit = 0
@@ -559,16 +616,46 @@ def gen_match(ctx, r):
 # ---------------------------------------------------------------------------------------------
 # stream: nblast
 # ---------------------------------------------------------------------------------------------
-def run_nblast(fn, qs, ts, cfg, smat, dtype='float64'):
-    ql = navis.NeuronList([mk_dp(c, dtype) for c in qs])
+def relabel(df, back, both):
+    """map the ids navis put on the axes back to the model's integer ids (unknown labels stay as they are)"""
+    f = lambda x: back.get(x, x)
+    df = df.copy()
+    names_c = df.columns.name
+    df.columns = pd.Index([f(x) for x in df.columns], name=names_c)
+    if both and isinstance(df.index, pd.MultiIndex):
+        df.index = pd.MultiIndex.from_tuples([(f(a), b) for a, b in df.index], names=df.index.names)
+    else:
+        nm = df.index.name
+        df.index = pd.Index([f(x) for x in df.index], name=nm)
+    return df
+
+
+def run_nblast(fn, qs, ts, cfg, smat, dtype='float64', opt=None):
+    opt = opt or {}
+    idk = opt.get('idkind')
+    us = opt.get('units') or ['1 micron']
+    qd = [mk_dp(c, dtype, idk, us[k % len(us)]) for k, c in enumerate(qs)]
+    back = {}
+    for c, d in zip(qs, qd):
+        back[d.id] = c['id']
+    ql = qd[0] if (opt.get('single_q') and len(qd) == 1) else navis.NeuronList(qd)
+    if opt.get('smat_obj') and not isinstance(smat, str):
+        smat = Lookup2d.from_dataframe(smat)
+    elif opt.get('smat_obj') and smat == 'auto':
+        smat = smat_fcwb(bool(cfg['use_alpha']))
     kw = dict(normalized=cfg['normalized'], use_alpha=cfg['use_alpha'], smat=smat, limit_dist=cfg['limit_dist'],
               precision=cfg.get('precision', 64), n_cores=1, progress=False)
+    if cfg.get('approx_nn'):
+        kw['approx_nn'] = True
     if fn == 'allbyall':
-        return NF.nblast_allbyall(ql, **kw)
+        return relabel(NF.nblast_allbyall(ql, **kw), back, False)
     if fn == 'nblastself':   # nblast(x): target=None means "against the queries themselves"
-        return NF.nblast(ql, None, scores=cfg['mode'], **kw)
-    tl = navis.NeuronList([mk_dp(c, dtype) for c in ts])
-    return NF.nblast(ql, tl, scores=cfg['mode'], **kw)
+        return relabel(NF.nblast(ql, None, scores=cfg['mode'], **kw), back, cfg['mode'] == 'both')
+    td = [mk_dp(c, dtype, idk, us[(k + 1) % len(us)]) for k, c in enumerate(ts)]
+    for c, d in zip(ts, td):
+        back[d.id] = c['id']
+    tl = td[0] if (opt.get('single_t') and len(td) == 1) else navis.NeuronList(td)
+    return relabel(NF.nblast(ql, tl, scores=cfg['mode'], **kw), back, cfg['mode'] == 'both')
 
 
 def smat_arg(tab):
@@ -604,6 +691,7 @@ def self_bins(tab_obj, c):
 def case_nblast(ctx, case):
     fn, qs, ts, cfg, tab = case['fn'], case['q'], case['t'], case['cfg'], case['table']
     dtype = case.get('dtype', 'float64')
+    opt = case.get('opt') or {}
     fn_call = fn
     if fn == 'nblastself':
         fn, ts = 'nblast', qs
@@ -620,10 +708,18 @@ def case_nblast(ctx, case):
     tset = qs if fn == 'allbyall' else ts
     ctx.count('nblast', f"{fn}/{mode}/{'norm' if norm else 'raw'}/{'alpha' if ua else 'noalpha'}/{tab['kind']}/"
                         f"{'limit' if bound else 'nolimit'}/p{prec}/{dtype}")
+    ctx.count('nblast_opt', '/'.join(f'{k}={opt[k]}' for k in sorted(opt) if k != 'units' and opt[k]) or 'plain')
+    if cfg.get('approx_nn'):
+        ctx.count('nblast_approx_nn')
     try:
-        df = run_nblast(fn_call, qs, ts, cfg, smat, dtype)
+        df = run_nblast(fn_call, qs, ts, cfg, smat, dtype, opt)
     except Exception as e:   # noqa
-        ctx.oracle(False, f'{fn_call} raised {type(e).__name__}: {e}', case)
+        us = opt.get('units') or []
+        known = isinstance(e, TypeError) and 'NoneType' in str(e) and smat == 'auto' if isinstance(smat, str) else False
+        known = bool(known) and (None in us) and not opt.get('smat_obj')
+        ctx.oracle(False, f'{fn_call} raised {type(e).__name__}: {e}'
+                          + (" (a Dotprops without units — the constructor's default — makes the preflight `check_microns` fail)" if known else ''),
+                   case, signature=SIG_UNITS if known else None)
         return
     both = mode == 'both'
     # ---- the definition, evaluated by the Lean model, compared in Rat by the driver --------------------------
@@ -648,7 +744,7 @@ def case_nblast(ctx, case):
     # ---- derived clauses on the real code ------------------------------------------------------------------
     cfgf = dict(cfg, mode='forward')
     if fn == 'allbyall':
-        ref = run_nblast('nblast', qs, qs, cfgf, smat, dtype)
+        ref = run_nblast('nblast', qs, qs, cfgf, smat, dtype, opt)
         ok = ref.shape == df.shape and list(ref.index) == list(df.index) and list(ref.columns) == list(df.columns)
         if ok:
             dv = np.abs(ref.values.astype(float) - v)
@@ -666,8 +762,8 @@ def case_nblast(ctx, case):
         F = v
         R = v.T
     else:
-        F = run_nblast('nblast', qs, ts, cfgf, smat, dtype).values.astype(float) if mode != 'forward' else v
-        R = run_nblast('nblast', ts, qs, cfgf, smat, dtype).values.astype(float).T
+        F = run_nblast('nblast', qs, ts, cfgf, smat, dtype, opt).values.astype(float) if mode != 'forward' else v
+        R = run_nblast('nblast', ts, qs, cfgf, smat, dtype, dict(opt, single_q=opt.get('single_t'), single_t=opt.get('single_q'))).values.astype(float).T
         if mode != 'forward':
             if mode == 'mean':
                 exp = (F + R) / 2
@@ -685,7 +781,7 @@ def case_nblast(ctx, case):
     if norm and fn == 'nblast' and case.get('check_self', True):
         unitq = [c for c in qs if is_unit(c)]
         if unitq:
-            sdf = run_nblast('nblast', unitq, unitq, cfgf, smat, dtype).values.astype(float)
+            sdf = run_nblast('nblast', unitq, unitq, cfgf, smat, dtype, dict(opt, single_q=False, single_t=False)).values.astype(float)
             dg = np.diag(sdf)
             ctx.oracle(bool((np.abs(dg - 1) <= 1e-14).all()), f'normalised self score (nblast(q, q)) is not 1: {dg}', case)
     # normalised <= 1 for the default tables
@@ -747,11 +843,47 @@ def gen_nblast(ctx, r, force=None):
         limit = r.choice([0.5, 1, 1.5, 2, 3, 5, 13, 0.75, 10, 50, 2.5, 42])
     if limit == 'auto' and tab['kind'] == 'df' and len(tab['rb']) < 3:
         limit = None   # a one-bin table has no finite boundary to derive the limit from
+    if force.get('far'):
+        # at least one target whose every point is beyond the distance cap from every query point, plus a small cap
+        far = r.choice([(0, 0, 600), (300, 400, 0), (0, 420, 0), (-500, 0, 0)])
+        src = r.randrange(len(qs))
+        tfar = shifted(r, qs[src], False, astyle, far)
+        tfar['id'] = max([c['id'] for c in qs + ts] + [0]) + 1
+        if fn == 'nblast':
+            ts.append(tfar)
+        else:
+            qs.append(tfar)
+        limit = force.get('limit', limit)
+        if limit == 'auto' and tab['kind'] == 'auto':
+            # ... and one sitting between the last finite boundary (40) and the derived cap (40 x 1.05 = 42)
+            tnear = shifted(r, qs[src], False, astyle, r.choice([(40, 0, 0), (9, 40, 0), (0, 0, 41), (0, 41.5, 0), (40, 9, 0)]))
+            tnear['id'] = tfar['id'] + 1
+            (ts if fn == 'nblast' else qs).append(tnear)
+        if not tie_free(qs + ts):
+            return gen_nblast(ctx, r, force)
     p = r.random()
     cfg = dict(mode=r.choice(['forward', 'mean', 'min', 'max', 'both']) if fn != 'allbyall' else 'forward',
                normalized=r.random() < 0.6, use_alpha=ua, limit_dist=limit,
                precision=64 if p < 0.8 else (32 if p < 0.95 else 16))
-    return dict(fn=fn, q=qs, t=ts, cfg=cfg, table=tab, dtype=dtype)
+    if limit == 'auto' and tab['kind'] == 'df' and len(tab['rb']) < 3:
+        cfg['limit_dist'] = None
+    opt = {}
+    o = r.random()
+    if o < 0.3:
+        opt['idkind'] = r.choice(['str', 'mixed', 'npint'])
+    if r.random() < 0.2:
+        opt['single_q'] = len(qs) == 1
+        opt['single_t'] = len(ts) == 1 and r.random() < 0.7
+    if r.random() < 0.2:
+        opt['smat_obj'] = True
+    if r.random() < 0.3:
+        opt['units'] = [r.choice(UNITS) for _ in range(3)]
+        if tab['kind'] == 'auto' and not opt.get('smat_obj'):
+            # unit-less neurons + smat='auto' is the known preflight failure (fixed witness below); keep the scores reachable
+            opt['units'] = [u or 'um' for u in opt['units']]
+    if r.random() < 0.12 and cfg['precision'] == 64 and eps_free(qs + ts):
+        cfg['approx_nn'] = True
+    return dict(fn=fn, q=qs, t=ts, cfg=cfg, table=tab, dtype=dtype, opt={k: v for k, v in opt.items() if v})
 
 
 # ---------------------------------------------------------------------------------------------
@@ -914,11 +1046,17 @@ def witness_cases():
     cfg = dict(mode='forward', normalized=True, use_alpha=True, limit_dist=None, precision=64)
     yield dict(fn='nblast', q=[qa], t=[ta], cfg=cfg, table=dict(kind='auto'), witness='A')
     yield dict(fn='nblast', q=[qb], t=[tb], cfg=cfg, table=dict(kind='auto'), witness='B')
+    # unit-less dotprops (the constructor's default) and the default table: the preflight raises (known finding)
+    yield dict(fn='nblast', q=[dict(qa, alpha=[1.0] * 4)], t=[ta], cfg=dict(cfg, use_alpha=False), table=dict(kind='auto'),
+               opt=dict(units=[None]), witness='units-none')
 
 
 # ---------------------------------------------------------------------------------------------
+from harness import c06x as X   # noqa: E402  (extension streams: histories, nblast_smart, duplicate ids)
+
 RUNNERS = {'digit': case_digit, 'lookup': case_lookup, 'match': case_match, 'nblast': case_nblast,
-           'selfhit': case_selfhit, 'ext': case_ext, 'real': case_real}
+           'selfhit': case_selfhit, 'ext': case_ext, 'real': case_real,
+           'hist': X.case_hist, 'smart': X.case_smart, 'dupids': X.case_dupids}
 
 
 def guarded(ctx, kind, case):
@@ -947,6 +1085,30 @@ def gen_cases(ctx):
     r = ctx.rng
     for w in witness_cases():
         yield 'nblast', w
+    for w in X.hist_witnesses():
+        yield 'hist', w
+    for w in X.smart_witnesses():
+        yield 'smart', w
+    # distance cap x alpha x normalisation, with query points beyond the cap from every point of some target:
+    # the score-level definition (no neighbour inside the cap => distance = cap, dot product = 0)
+    lim = list(itertools.product(['auto', 2, 13, None], [False, True], [True, False]))
+    r.shuffle(lim)
+    for (limit, ua, norm) in lim[:ctx.budget(16, 16)]:
+        c = gen_nblast(ctx, r, dict(fn=r.choice(['nblast', 'nblast', 'allbyall']), tkind=r.choice(['auto', 'df']), ua=ua, far=True, limit=limit))
+        c['cfg']['normalized'] = norm
+        c['cfg']['precision'] = 64
+        yield 'nblast', c
+    for _ in range(ctx.budget(45, 700)):
+        yield 'hist', X.gen_hist(ctx, r)
+    for _ in range(ctx.budget(40, 600)):
+        yield 'smart', X.gen_smart(ctx, r)
+    for _ in range(ctx.budget(4, 30)):
+        qs, ts = gen_neurons(r, r.randint(2, 3), r.randint(2, 3), True, 'one', 6, 'unique')
+        if r.random() < 0.5:
+            qs[1]['id'] = qs[0]['id']
+        else:
+            ts[-1]['id'] = ts[0]['id']
+        yield 'dupids', dict(q=qs, t=ts)
     for _ in range(ctx.budget(700, 6000)):
         yield 'digit', gen_digit(ctx, r)
     for _ in range(ctx.budget(350, 3000)):
@@ -991,12 +1153,18 @@ def sweep_digit(ctx):
 
 def run(ctx):
     ctx.extra['rule'] = (
-        'streams digit/lookup/match/nblast/selfhit/ext/real; a case is the materialised input (boundaries + values, '
+        'streams digit/lookup/match/nblast/selfhit/ext/real/hist/smart/dupids; a hist case is a store of clouds + a list of '
+        'steps (NBLAST calls and mutations of the same objects); a case is the materialised input (boundaries + values, '
         'table + value pairs, clouds with dyadic coordinates/tangents/alphas + configuration); every generated case is '
         'non-trivial (boundary-exact values, shifted copies at exact distances, clipping, no-hit points); distinct = '
         'distinct JSON digest')
     ctx.extra['assumptions'] = [
         'kd-tree nearest neighbour (pykdtree) is external; cases with nearest-neighbour ties of different outcome are removed by the generator',
+        'pykdtree answers a query from the coordinates it was built from when `_points` is re-bound (downsample / subset) and from '
+        'a mixture of old partition and new coordinates when the buffer is changed in place; the cache model only claims that a tree '
+        'built from the current coordinates answers like the definition',
+        'history stream: objects with SVD-computed (lazy) tangents are scored with one-dot-bin tables only, so float noise in the '
+        'tangents cannot move a point across a bin boundary',
         'IEEE: inputs are few-bit dyadics, so squared distances / dot products / alpha products are exact and sqrt is correctly rounded; '
         'sums of table cells are compared in Rat with tolerance 2^-40 relative to the size of the summed terms',
     ]
@@ -1034,8 +1202,14 @@ class _Probe:
     def case(self, *a, **k):
         pass
 
+    @staticmethod
+    def key(what):
+        import re
+        w = re.sub(r'history step \d+ \([^)]*\)', 'history step', what)
+        return w[:40]
+
     def oracle(self, ok, what, case, signature=None, **extra):
-        if not ok and not (signature and self.ctx.match_known(signature)) and what[:40] == self.what[:40]:
+        if not ok and not (signature and self.ctx.match_known(signature)) and self.key(what) == self.key(self.what):
             self.failed = True
         return ok
 
@@ -1046,6 +1220,8 @@ class _Probe:
 def shrink(ctx, failure):
     case = dec(failure['case'])
     kind = case.get('kind')
+    if kind == 'hist':
+        return shrink_hist(ctx, failure, {k: v for k, v in case.items() if k != 'kind'})
     if kind != 'nblast':
         return None
     case = {k: v for k, v in case.items() if k != 'kind'}
@@ -1088,4 +1264,38 @@ def shrink(ctx, failure):
     out['case'] = enc(dict(cur, kind='nblast'))
     # re-evaluate to refresh the message
     p2 = _Probe(ctx, failure['what'])
+    return out
+
+
+def shrink_hist(ctx, failure, case):
+    """drop steps of a failing history while the same kind of failure remains"""
+    import copy
+
+    def fails(c):
+        p = _Probe(ctx, failure['what'])
+        try:
+            RUNNERS['hist'](p, c)
+        except Exception:   # noqa
+            return False
+        return p.failed
+
+    if not fails(copy.deepcopy(case)):
+        return None
+    cur = case
+    progress = True
+    while progress:
+        progress = False
+        for i in range(len(cur['steps']) - 1, -1, -1):
+            st = cur['steps'][i]
+            # steps that create objects shift the numbering of later ones: only drop them when nothing refers to later objects
+            creates = st['op'] in ('add', 'sub', 'mul', 'div', 'copy', 'pickle') or \
+                (st['op'] in ('downsample', 'subset', 'recalc', 'convert') and not st.get('inplace'))
+            if creates:
+                continue
+            c = copy.deepcopy(cur)
+            del c['steps'][i]
+            if c['steps'] and fails(c):
+                cur, progress = c, True
+    out = dict(failure)
+    out['case'] = enc(dict(cur, kind='hist'))
     return out
